@@ -468,9 +468,7 @@ func RuleJValuation(c *core.Ctx) {
 				if !ok {
 					continue
 				}
-				r0 := b.Succs[0] == st.Block() || core.BlockReaches(b.Succs[0], st.Block(), nil)
-				r1 := b.Succs[1] == st.Block() || core.BlockReaches(b.Succs[1], st.Block(), nil)
-				if r0 == r1 {
+				if ctl, _ := core.Controls(b, st.Block()); !ctl {
 					continue // not controlling
 				}
 				side := false
